@@ -34,3 +34,10 @@ func verif_guarded(g *gin.RouterGroup) bool { return true }
 //@ func newRouter [C13]
 //@   requires s != nil && s.ServerChf != nil
 //@   loop 0: invariant 0 <= ITER
+
+// ---- server start (C20) ---------------------------------------------------------------------------
+
+// The SBI server starts from the validated configuration without a nil dereference: the TLS paths are
+// only read for the https scheme, for which validation demands the tls section.
+//@ func (*Server).startServer [C20]
+//@   requires s != nil && s.ServerChf != nil && s.httpServer != nil && wg != nil
